@@ -229,8 +229,13 @@ theorem lookup_map_congr (f g : OptDecl → String) (k : String) :
       rw [this]
       exact lookup_map_congr f g k l (fun od' h' => h od' (List.mem_cons_of_mem _ h'))
 
-theorem optionsOf_eq (c : Cst) : optionsOf c = (optDecls c).map fun od => (od.name.text, od.value.text) := by
+/-- the declarative reading takes the value of an option exactly as the visitor passes it to `AddOption` -/
+theorem optValueText_eq (od : OptDecl) : optValueText od = optValueOf od := rfl
+
+theorem optionsOf_eq (c : Cst) : optionsOf c = (optDecls c).map fun od => (od.name.text, optValueOf od) := by
+  have e : (fun d : OptDecl => (d.name.text, optValueText d)) = fun od => (od.name.text, optValueOf od) := rfl
   unfold optionsOf optDecls
+  rw [e]
   induction c.defs with
   | nil => rfl
   | cons d l ih =>
@@ -1098,19 +1103,17 @@ theorem optLoop_ref : ∀ (l : List OptDecl) (s : VState),
 /-! ## The whole run -/
 
 /-- **Side conditions under which the two readings are proved to agree.**  `[lexical]` conditions hold of every tree the
-parser produces (they only exclude `Cst` values whose tokens the lexer cannot make); `optRaw` excludes inputs on which
-the readings genuinely DIFFER (see `Props/C08.lean`). -/
+parser produces from a text without a raw NUL character (they only exclude `Cst` values whose tokens the lexer cannot
+make, and a quoted pad character holding a raw NUL). -/
 structure Agree (c : Cst) : Prop where
   /-- [lexical] the type of every MetaData entry is one the declarative reading knows (`u8` … `float64`, `char`, strings) -/
   metaTy : ∀ e, e ∈ metaEntries c → ∀ d, e = .decl d → (dtyOf d.ty).isSome = true
   /-- [lexical] the same for typed fields, and a padding attribute's character is `'0'`, `' '` or `'\x00'`;
   a checksum field has a scalar type -/
   fields : ∀ p, TopDef.packet p ∈ c.defs → ∀ f, f ∈ p.fields → FieldAgree (metaNames c) (metasOf c) f
-  /-- [discrepancy] the five options that shape the wire format are not written as quoted strings
-  (the visitor strips the quotes, the declarative reading does not and falls back to the default) -/
-  optRaw : ∀ od, od ∈ optDecls c → od.name.text ∈ semKeys → optValueOf od = od.value.text
-  /-- [lexical] the value of `FixedStringPadChar` is `'0'`, `' '` or `'\x00'` as the lexer spells them -/
-  optPad : ∀ od, od ∈ optDecls c → od.name.text = "FixedStringPadChar" → (padCharByte od.value.text).isSome = true
+  /-- [lexical] the value of `FixedStringPadChar` (quotes of a STRING token stripped) is `'0'`, `' '` or `'\x00'` as the
+  lexer spells them (not the raw-NUL spelling `model.go` also lists) -/
+  optPad : ∀ od, od ∈ optDecls c → od.name.text = "FixedStringPadChar" → (padCharByte (optValueOf od)).isSome = true
 
 theorem mem_map_opts {l : List OptDecl} {f : OptDecl → String} {n v : String}
     (h : (n, v) ∈ l.map fun od => (od.name.text, f od)) : ∃ od, od ∈ l ∧ od.name.text = n ∧ f od = v := by
@@ -1172,15 +1175,10 @@ theorem visitCst_refines (c : Cst) (h : WFFlat c) (ha : Agree c) :
     rw [ho3, hopt2] at hmem
     obtain ⟨od, h1, h2, h3⟩ := mem_map_opts hmem
     have h4 := ha.optPad od h1 h2
-    rw [← ha.optRaw od h1 (by rw [h2]; decide), h3] at h4
+    rw [h3] at h4
     exact absurd h4 (by decide)
   have hcfg : configOfM (configOfOptions s3.options) = some (configOf (optionsOf c)) := by
-    rw [config_refines _ hok hnul]
-    congr 1
-    apply configOf_congr
-    intro k hk
-    rw [ho3, hopt2, optionsOf_eq]
-    exact lookup_map_congr _ _ k _ (fun od hod hn => ha.optRaw od hod (by rw [hn]; exact hk))
+    rw [config_refines _ hok hnul, ho3, hopt2, optionsOf_eq]
   have hschema : schemaOf s3 = some { cfg := configOf (optionsOf c), packets := ps } := by
     unfold schemaOf
     rw [hcfg]
